@@ -13,8 +13,8 @@ CATALOGUE = [
          old="self.card_min == 0 and self.card_max == 1 and len(self.children) > 1",
          new="self.card_min == 0 and self.card_max == 1 and len(self.children) > 2"),
     dict(id="c03-relations-skip-mutex", props=["C03"], file=FM, rule="C03-LISTING",
-         old="relations.extend(self.get_relations(_feature))",
-         new="relations.extend(self.get_relations(_feature)) if not relation.is_mutex() else None"),
+         old="            pending.append(iter([child_relation for child in relation.children",
+         new="            pending.append(iter([child_relation for child in (relation.children if not relation.is_mutex() else [])"),
     dict(id="c03-lookup-casefold", props=["C03"], file=FM, rule="C03-LISTING",
          old="if f.name == feature_name", new="if f.name.lower() == feature_name.lower()"),
     dict(id="c03-optional-listing", props=["C03"], file=FM, rule="C03-FILTER",
@@ -440,7 +440,7 @@ CATALOGUE = [
     dict(id="c11-optional-mark-for-nonmandatory", props=["C11"], file=TR + "clafer_writer.py", rule="C11-GROUPS",
          old="    if feature.is_optional():\n        result += ' ?'", new="    if feature.is_mandatory():\n        result += ' ?'"),
     dict(id="c11-card-minmax-swapped", props=["C11"], file=TR + "clafer_writer.py", rule="C11-GROUPS",
-         old='            group_type = str(rel.card_min) + ".." + str(rel.card_max)', new='            group_type = str(rel.card_max) + ".." + str(rel.card_min)'),
+         old="            group_type = f'{rel.card_min}..{card_max}'", new="            group_type = f'{card_max}..{rel.card_min}'"),
     dict(id="c11-excludes-as-implies", props=["C11"], file=TR + "clafer_writer.py", rule="C11-OPS",
          old="ASTOperation.EXCLUDES: '=> not'}", new="ASTOperation.EXCLUDES: '=>'}"),
     dict(id="c11-and-as-or", props=["C11"], file=TR + "clafer_writer.py", rule="C11-OPS",
@@ -453,20 +453,21 @@ CATALOGUE = [
     dict(id="c11-instance-wrong-root", props=["C11"], file=TR + "clafer_writer.py", rule="C11-",
          old="    result += f'\\n\\n{INSTANCE} : {safename(feature_model.root.name)}\\n'", new="    result += f'\\n\\n{INSTANCE} : {feature_model.root.name.lower()}\\n'"),
     # ---- behaviour-preserving refactors (must stay silent) ------------------------------------------------
-    dict(id="silent-get-relations-iterative", props=["C03", "C16", "C17", "C02"], file=FM, expect="silent",
-         old="""        relations = []
-        for relation in feature.relations:
+    dict(id="c16-get-relations-recursive", props=["C16", "C17"], file=FM, rule="DEPTH-INDEPENDENT",
+         old="""        pending = [iter(feature.relations)]
+        while pending:
+            relation = next(pending[-1], None)
+            if relation is None:
+                pending.pop()
+                continue
+            relations.append(relation)
+            pending.append(iter([child_relation for child in relation.children
+                                 for child_relation in child.relations]))
+        return relations""",
+         new="""        for relation in feature.relations:
             relations.append(relation)
             for _feature in relation.children:
                 relations.extend(self.get_relations(_feature))
-        return relations""",
-         new="""        relations = []
-        pending = [feature]
-        while pending:
-            current = pending.pop(0)
-            for relation in current.relations:
-                relations.append(relation)
-                pending.extend(relation.children)
         return relations"""),
     dict(id="silent-core-features-recursive", props=["C14", "C19"], file=OPS + "fm_core_features.py", expect="silent",
          old="""    core_features = [feature_model.root]
@@ -533,7 +534,7 @@ def compute_atomic_sets(atomic_sets: list[set[Feature]],
             return False
         simple = (self.card_min, self.card_max) in [(1, 1), (0, 1), (1, n)]
         return not simple"""),
-    dict(id="silent-vp-recursive", props=["C16"], file=OPS + "fm_variation_points.py", expect="silent",
+    dict(id="c16-vp-recursive", props=["C16"], file=OPS + "fm_variation_points.py", rule="C16-DEPTH-INDEPENDENT",
          old="""    vps: dict[Feature, list[Feature]] = {}
     features = [feature_model.root]
     while features:
